@@ -296,6 +296,43 @@ def composition(F):
     return out
 
 
+def alive_maintained(F):
+    """The alive bitmap decides every filter derived from 'all documents' (empty filter, empty And, Not, and the final
+    intersection): insert_doc adds the id on every path to its return — whatever the metadata holds, including nothing —
+    and remove_doc removes it on every path; both operate on field `alive` of the index itself."""
+    ai = field_index("hnsw_backend.rs", "MetadataInvertedIndex", "alive")
+    if ai is None:
+        return [Result("inconclusive", "MetadataInvertedIndex.alive not found")]
+    SELF_ALIVE = r"^&\(\(\*\{arg\(_1: &mut (hnsw_backend::)?MetadataInvertedIndex\)\}\)\.%d: (roaring::)?RoaringTreemap\)$" % ai
+
+    def on_alive(fn, b, _t):
+        a = _M._split_top(b.args)
+        return bool(a) and bool(re.search(SELF_ALIVE, origin(fn, a[0]))) and len(a) > 1 and origin(fn, a[1]) == "arg(_2: u64)"
+    out = []
+    for meth, op in (("insert_doc", "insert"), ("remove_doc", "remove")):
+        f = "hnsw_backend::MetadataInvertedIndex::" + meth
+        fc = FnCheck(F, f)
+        if fc.fn is None:
+            out.append(fc.missing())
+            continue
+        EV = Ev(r"RoaringTreemap>::%s\(" % op, kind="call", also=on_alive, name="self.alive.%s(doc_id)" % op)
+        g_ret = [b.idx for b in fc.fn.blocks.values() if not b.cleanup and b.kind == "return"]
+        RET = Ev(r".", kind="any", also=lambda fn, b, t, rs=set(g_ret): False, name="return")
+        # every path from the entry to a return passes the alive update: cut nothing, ask for a return reachable while avoiding EV
+        r = fc.follows(Ev(r".", kind="call", also=lambda fn, b, t: b.idx == 0, name="entry (first call)"), EV, exit="return") if fc.fn.blocks[0].kind == "call" and not on_alive(fc.fn, fc.fn.blocks[0], "") else None
+        if r is None:
+            # the very first block is the alive update itself (remove_doc) — it dominates every return
+            r = fc.reachable(EV)
+            if r.verdict == "holds" and fc.fn.blocks[0].kind == "call" and on_alive(fc.fn, fc.fn.blocks[0], ""):
+                r.detail = "self.alive.%s(doc_id) is the entry block of %s" % (op, meth)
+            else:
+                r = Result("inconclusive", "entry of %s not in a recognised form" % meth)
+        out.append(r)
+    return out
+
+
+MOS.append(MO("O11.8/alive_maintained", "MetadataInvertedIndex: insert_doc puts the id into the alive bitmap on every path to its return (also for empty metadata), remove_doc takes it out on every path",
+              alive_maintained, functions=[("hnsw_backend.rs", "insert_doc"), ("hnsw_backend.rs", "remove_doc")]))
 MOS.append(MO("O11.7/composition", "compile_filter_to_bitmap: And arms only intersect (&=), Or / InMatch arms only unite (|=) from the empty set, Not subtracts the sub-result from a clone of the alive set; every compiled sub-filter is combined before the result is returned",
               composition, functions=[("hnsw_backend.rs", "compile_filter_to_bitmap")]))
 MOS.append(MO("O11.4/symmetry", "MetadataInvertedIndex: for every index structure and value class (non-numeric, numeric NaN, numeric non-NaN) remove_doc un-indexes exactly where insert_doc indexes",
